@@ -145,6 +145,66 @@ def sched_execute(variant, prefix):
         sc.close()
 
 
+def sched_execute_dwr(prefix):
+    """A request is with the application; the connection's idle time-out expires in the instant in which the peer's DPR arrives: the I/O
+    thread sending the watchdog request (line granularity in send_dwr / reset_last_dwr) against the reader thread handling the DPR.
+    Whatever the order, the DPR has been received afterwards: the held answer must be refused and nothing transmitted."""
+    import copy as _copy
+    import diameter.node.node as nn
+    import diameter.node.peer as pp
+    sk.install()
+    pts = {sk.code_of(nn.Node, "send_dwr"): None, sk.code_of(nn.Node, "receive_dpr"): None,
+           sk.code_of(pp.PeerConnection, "reset_last_dwr"): None}
+    sk.set_line_points(pts)
+    ch = scheddfs.Chooser(prefix)
+    cfg = _copy.deepcopy(BASE)
+    cfg["node"].update({"idle_timeout": 2, "dwa_timeout": 30, "wakeup": 1})
+    sc = scenario.Scenario(cfg, chooser=ch, max_socks=1)
+    try:
+        nw = sc.start()
+        mons = [m(sc) for m in MONS]
+        vs = []
+        for ev in (("accept",), ("m", 0, "cer_p0"), ("m", 0, "rh:1")):
+            sc.apply(ev)
+            for m in mons:
+                vs += m.step()
+        app, msg = nw.requests[0]
+        s0 = sc.socks[0]
+        nw.world.jump(3)
+        nw.world.points_on = True
+        ch.window = True
+        nw.deliver(s0.fs, sc.message(s0, "dpr"), run=False)
+        nw.run()
+        ch.window = False
+        nw.world.points_on = False
+        sc.sync()
+        res = []
+
+        def answerer():
+            try:
+                app.send_answer(app.generate_answer(msg, result_code=2001))
+                res.append("sent")
+            except Exception as e:
+                res.append(type(e).__name__)
+        sk.spawn(answerer, "answerer")
+        nw.run()
+        sc.sync()
+        sc.apply(("tick", 1))
+        ident = (msg.header.command_code, msg.header.application_id, msg.header.hop_by_hop_identifier, msg.header.end_to_end_identifier)
+        on0 = [f for f in s0.out if not f.h.is_request and f.h.ident() == ident and f.result_code == 2001]
+        dpa = [f for f in s0.out if not f.h.is_request and f.h.code == 282]
+        if dpa and (res != ["NotRoutable"] or on0):
+            vs.append(("answer-route:answer-accepted-after-the-requester's-DPR-was-answered:idle-time-out-in-the-same-instant", f"outcome {res}, answer frames {on0}"))
+        for r0 in res:
+            if r0 not in ("sent", "NotRoutable"):
+                vs.append((f"answer-route:submission-fails-with-{r0}-instead-of-NotRoutable:after-dwr-vs-dpr", f"{res}"))
+        fails = nw.thread_failures()
+        obs = ("dwr-dpr", tuple(res), len(on0), len(dpa), tuple(sorted(set(k for k, d in vs))), tuple(fails))
+        return (obs, tuple(vs)), ch
+    finally:
+        sc.close()
+
+
 def sched_check(obs_vs):
     obs, vs = obs_vs
     return [(k + ":under-some-schedule", d) for k, d in vs]
@@ -155,8 +215,8 @@ def run(tier):
     common.pool()
     bound = 2 if tier == "thorough" else 1
     sched = 0
-    tasks = [(functools.partial(sched_execute, v), sched_check, bound) for v in ("eof", "dpr", "double")]
-    for v, r in zip(("eof", "dpr", "double"), (scheddfs.explore_many(tasks) if tier != "thorough" else scheddfs.explore_many_capped(tasks, 1, 600))):
+    tasks = [(functools.partial(sched_execute, v), sched_check, bound) for v in ("eof", "dpr", "double")] + [(sched_execute_dwr, sched_check, bound)]
+    for v, r in zip(("eof", "dpr", "double", "dwr-dpr"), (scheddfs.explore_many(tasks) if tier != "thorough" else scheddfs.explore_many_capped(tasks, 1, 600))):
         sched += r["executions"]
         for (key, detail), choices in r["violations"]:
             rep.add(Violation(key, f"[send_answer racing with {v}, bound {bound}] choices {choices}: {detail}", {"sched": v, "choices": choices}))
@@ -180,7 +240,8 @@ def replay(case):
     if "sched" in case:
         import functools
         from .. import scheddfs
-        obs_vs, ch = scheddfs.replay_choices(functools.partial(sched_execute, case["sched"]), case["choices"])
+        ex = sched_execute_dwr if case["sched"] == "dwr-dpr" else functools.partial(sched_execute, case["sched"])
+        obs_vs, ch = scheddfs.replay_choices(ex, case["choices"])
         return [Violation(k, d) for k, d in sched_check(obs_vs)]
     hist = tuple(tuple(e) for e in case["history"])
     for m in models("thorough"):
